@@ -97,6 +97,7 @@ type Interp struct {
 	label     string
 	cuts      []string
 	rnd       int
+	usedRandom bool
 
 	methodCache map[string]*ssa.Function
 	enteredFns  map[*ssa.Function]int
@@ -294,7 +295,7 @@ func (in *Interp) get(fr *frame, v ssa.Value) Value {
 	case *ssa.Const:
 		return in.constVal(x)
 	case *ssa.Global:
-		if p, bad := in.world.tainted[x]; bad && !in.lenient {
+		if p, bad := in.world.taintedBy(x); bad && !in.lenient {
 			in.endPath("UNSUPPORTED", "global "+x.String()+" of package "+p+" whose initializer is not run")
 		}
 		return in.global(x)
@@ -798,7 +799,9 @@ func (in *Interp) tpanic(class, msg string) {
 	panic(&targetPanic{class: class, msg: msg, site: in.site()})
 }
 
-// site names the innermost frame's function; callers prefer avfs frames.
+// site names the innermost avfs function on the current thread's stack (or the
+// innermost function at all), in the short form pkg.(*T).M shared with the
+// native runner (sym.ShortFunc).
 func (in *Interp) site() string {
 	th := in.cur
 	if th == nil {
@@ -806,18 +809,71 @@ func (in *Interp) site() string {
 	}
 	first := ""
 	for fr := th.top; fr != nil; fr = fr.caller {
-		n := fr.fn.String()
 		if first == "" {
-			first = n
+			first = shortFn(fr.fn)
 		}
-		if fr.fn.Pkg != nil && strings.HasPrefix(fr.fn.Pkg.Pkg.Path(), "github.com/avfs/avfs") {
-			return n
-		}
-		if p := fr.fn.Origin(); p != nil && p.Pkg != nil && strings.HasPrefix(p.Pkg.Pkg.Path(), "github.com/avfs/avfs") {
-			return p.String()
+		if strings.HasPrefix(fnPkgPath(fr.fn), "github.com/avfs/avfs") {
+			return shortFn(fr.fn)
 		}
 	}
 	return first
+}
+
+func fnPkgPath(f *ssa.Function) string {
+	for f.Parent() != nil {
+		f = f.Parent()
+	}
+	if o := f.Origin(); o != nil {
+		f = o
+	}
+	if f.Pkg != nil {
+		return f.Pkg.Pkg.Path()
+	}
+	if r := f.Signature.Recv(); r != nil {
+		t := r.Type()
+		if p, ok := t.(*types.Pointer); ok {
+			t = p.Elem()
+		}
+		if n, ok := t.(*types.Named); ok && n.Obj().Pkg() != nil {
+			return n.Obj().Pkg().Path()
+		}
+	}
+	return ""
+}
+
+func shortFn(f *ssa.Function) string {
+	for f.Parent() != nil {
+		f = f.Parent()
+	}
+	if o := f.Origin(); o != nil {
+		f = o
+	}
+	name := f.Name()
+	if i := strings.IndexByte(name, '$'); i >= 0 {
+		name = name[:i] // bound-method / thunk wrappers
+	}
+	if r := f.Signature.Recv(); r != nil {
+		t := r.Type()
+		ptr := false
+		if p, ok := t.(*types.Pointer); ok {
+			t = p.Elem()
+			ptr = true
+		}
+		if n, ok := t.(*types.Named); ok {
+			pk := ""
+			if n.Obj().Pkg() != nil {
+				pk = n.Obj().Pkg().Name() + "."
+			}
+			if ptr {
+				return pk + "(*" + n.Obj().Name() + ")." + name
+			}
+			return pk + n.Obj().Name() + "." + name
+		}
+	}
+	if f.Pkg != nil {
+		return f.Pkg.Pkg.Name() + "." + name
+	}
+	return name
 }
 
 // ---------- calls ----------
@@ -1453,7 +1509,7 @@ func (in *Interp) sizeArg(v Value, t types.Type, what string) int {
 	switch c := v.(type) {
 	case int64:
 		if c < 0 {
-			in.tpanic("makeslice", "makeslice: "+what+" out of range")
+			in.tpanic("alloc-size", "makeslice: "+what+" out of range")
 		}
 		if c > int64(1<<20) {
 			in.cuts = append(in.cuts, "alloc")
@@ -1463,7 +1519,7 @@ func (in *Interp) sizeArg(v Value, t types.Type, what string) int {
 	case *Term:
 		// the real run-time limit for []byte on amd64 is 2^48 elements; anything
 		// negative (as signed) or above panics
-		bad := in.tm.Cmp("bvugt", c, in.tm.Const(uint64(1)<<47, c.w))
+		bad := in.tm.Cmp("bvugt", c, in.tm.Const(uint64(1)<<48, c.w))
 		if c.w < 64 {
 			bad = in.tm.Cmp("bvslt", c, in.tm.Const(0, c.w))
 			if isUnsigned(t) {
@@ -1471,7 +1527,7 @@ func (in *Interp) sizeArg(v Value, t types.Type, what string) int {
 			}
 		}
 		if in.branch(bad) {
-			in.tpanic("makeslice", "makeslice: "+what+" out of range")
+			in.tpanic("alloc-size", "makeslice: "+what+" out of range")
 		}
 		big := in.tm.Cmp("bvugt", c, in.tm.Const(uint64(in.cfg.MaxAlloc), c.w))
 		if in.branch(big) {
@@ -1487,7 +1543,7 @@ func (in *Interp) makeSlice(fr *frame, x *ssa.MakeSlice) Value {
 	n := in.sizeArg(in.get(fr, x.Len), x.Len.Type(), "len")
 	c := in.sizeArg(in.get(fr, x.Cap), x.Cap.Type(), "cap")
 	if c < n {
-		in.tpanic("makeslice", "makeslice: cap out of range")
+		in.tpanic("alloc-size", "makeslice: cap out of range")
 	}
 	et := x.Type().Underlying().(*types.Slice).Elem()
 	arr := newArray(et, c)
